@@ -607,6 +607,7 @@ func ruleBucketMemoInvalidated(c *Ctx, rule string) {
 // was just written for the previous.
 func ruleFreshIndexingContext(c *Ctx, rule string) {
 	p := c.P
+	ictx := p.Named("boltz", "IndexingContext")
 	n := 0
 	for _, fn := range c.prodFuncs("boltz") {
 		for _, f := range allFuncsWithAnon(fn) {
@@ -616,8 +617,9 @@ func ruleFreshIndexingContext(c *Ctx, rule string) {
 				if !isVal {
 					continue
 				}
-				cal, _ := calleeOf(call.Common())
-				if cal == nil || cal.Name() != "newIndexingContext" {
+				// the context constructor, by what it answers (naming it here would make it an anchor the
+				// normaliser no longer expands, and CREATECTX reads through it)
+				if _, isPtr := cv.Type().Underlying().(*types.Pointer); !isPtr || namedOf(cv.Type()) != ictx {
 					continue
 				}
 				n++
